@@ -554,3 +554,15 @@ func init() {
 		},
 	})
 }
+
+func init() {
+	replayDrivers = append(replayDrivers, replayDriver{
+		match: func(n string) bool {
+			return strings.Contains(n, "bad-key-is-the-clients-error") || strings.Contains(n, "client-error-status")
+		},
+		run: func(r *Report, o *Obligation, sr *SolveResult) ReplayResult {
+			out, conf := goReplay(r, "cmd/keymasterd", "keymasterd_autokey_replay_test.go", "TestVerifReplayAutomationBadKeyStatus", map[string]string{})
+			return ReplayResult{Confirmed: conf, Summary: replaySummary(out), Output: truncate(out, 4000), Driver: "TestVerifReplayAutomationBadKeyStatus (inputs of the model's class: a public key that does not parse, and one that is too weak, on both automation paths)"}
+		},
+	})
+}
